@@ -9,6 +9,31 @@ mod init;
 mod json_generator;
 mod markdown_generator;
 
+/// Verification-only entry points (cargo feature `verif-hooks`, off by default): names only,
+/// so that a harness can load a workspace and run the JSON export in-process.
+#[cfg(feature = "verif-hooks")]
+pub mod verif_api {
+    pub use crate::init::load_workspace;
+    pub use crate::json_generator::{Index, export, generate_json};
+
+    use std::cell::RefCell;
+
+    thread_local! {
+        static SEAM_LENGTHS: RefCell<Vec<(&'static str, usize)>> = const { RefCell::new(Vec::new()) };
+    }
+
+    /// Called by the order seams of the JSON export: remembers the length of the list at `site`.
+    pub(crate) fn note_seam(site: &'static str, len: usize) {
+        SEAM_LENGTHS.with(|s| s.borrow_mut().push((site, len)));
+    }
+
+    /// `(site, list length)` of every order seam passed on this thread since the last call,
+    /// so that a harness can enumerate all `length!` orders of each list.
+    pub fn take_seam_lengths() -> Vec<(&'static str, usize)> {
+        SEAM_LENGTHS.with(|s| std::mem::take(&mut *s.borrow_mut()))
+    }
+}
+
 #[allow(unused)]
 pub fn run_doc_cli(mut cmd_args: CmdArgs) -> Result<(), Box<dyn std::error::Error>> {
     setup_logger(cmd_args.verbose);
